@@ -30,9 +30,13 @@ CHECKS = {
              "for every input below p*2^N). The Fp layer is shown to forward to these kernels with the field's own modulus/inverse word, and the "
              "constants R, R^2, -p^-1, one, negative_one are ground-checked. Fr (all configurations use the generic code), Fq in the portable "
              "64-bit and (thorough) 32-bit configurations; Fq in the shipped x86-64 build is the assembly decided by C03 plus the forwarding glue here. "
-             "Loops have concrete trip counts and run in full: no unwinding bound.",
-        note="Data-dependent loops (fp_inverse, exponentiate, legendre, square roots, random) are covered only where obligations c02_loops exist; "
-             "Fr::square_root (Tonelli-Shanks) is outside. Trusted: Montgomery uniqueness, clang -O1 vs -Ofast, z3.",
+             "Word loops have concrete trip counts and run in full. Data-dependent loops: fp_inverse<Fq|Fr> is cut into segments at its loop and comparison blocks; "
+             "every segment, run from an ARBITRARY state (u,v,b,c) under block invariants that are themselves inferred (Houdini) and proved, realises one of "
+             "{halve-u, halve-v, u-=v, v-=u, unchanged} consistently on (u,v) and on (b,c) mod p, keeps b,c < p, loses no carry, and exits with the right "
+             "component (inverse(0) = 0); exponentiate_restrict by loop cut (E' = 2E + bit_i); legendre raises to (p-1)/2 and maps {0,1,else}; "
+             "Fq::square_root raises to (q+1)/4.",
+        note="Fr::square_root (Tonelli-Shanks; called by nothing in the library) and termination of fp_inverse are outside. Random sampling is in C10. "
+             "Trusted: Montgomery uniqueness (T1), binary-Euclid lifting (T2), T5, clang -O1 vs -Ofast, z3.",
         tech="LLVM-IR symbolic execution; QF_BV VCs for linear kernels, QF_LIA VCs (affine substitution form, opaque word products) for products and Montgomery reduction",
         ref="5/C02"),
     "C03": dict(
@@ -51,8 +55,11 @@ CHECKS = {
         cat="proof",
         text="Every Fq2/Fq6/Fq12 method is symbolically executed from the IR of the current tree over free field indeterminates and "
              "z3 decides output == schoolbook quotient-ring arithmetic as polynomial identities mod q; no operand bound, no loop bound "
-             "(no data-dependent loops); Frobenius for all 2^32 powers. Counterexamples are replayed on the native build.",
-        note="Trusted: Fq layer exactness (C02/C03), Z[x]->Fq[x] transfer, Frobenius automorphism facts, clang -O1 vs -Ofast, z3.",
+             "Frobenius for all 2^32 powers. map_to_cyclotomic over exponents mod q^12-1 equals (q^6-1)(q^2+1); square_cyclotomic = square on the "
+             "cyclotomic subgroup via 12 solver-checked ideal-membership certificates against the 24 defining relations (finder untrusted); Fq2 norm, "
+             "Legendre symbol, square root (conformance with Algorithm 9 over uninterpreted operations, exponents ground-checked) and the generic "
+             "exponentiation loop (loop cut). Counterexamples are replayed on the native build.",
+        note="Byte I/O component order of Fq2/Fq6/Fq12 is decided in C15 (fq12-io obligation). Trusted: Fq layer exactness (C02/C03), Z[x]->Fq[x] transfer, Frobenius automorphism facts, T5 for the square root, clang -O1 vs -Ofast, z3.",
         tech="LLVM-IR symbolic execution, polynomial-identity VCs mod q in z3 (QF_NIA), bit-vector VCs for table indices",
         ref="5/C04"),
     "C05": dict(
